@@ -37,6 +37,8 @@ inductive V
   | toSlice (u : Un) (s : S)
   | and (a b : S)
   | or (a b : S)
+  | andSV (a : S) (b : V)
+  | orSV (a : S) (b : V)
   | bitAnd (a b : V)
   | bitOr (a b : V)
   | push (v : V) (i : Nat)
@@ -171,6 +173,8 @@ partial def parseVKw (k : String) : P V := do
     | none => throw "un"
   | "and" => let a ← parseS; let b ← parseS; pure (.and a b)
   | "or" => let a ← parseS; let b ← parseS; pure (.or a b)
+  | "andsv" => let a ← parseS; let b ← parseV; pure (.andSV a b)
+  | "orsv" => let a ← parseS; let b ← parseV; pure (.orSV a b)
   | "bitand" => let a ← parseV; let b ← parseV; pure (.bitAnd a b)
   | "bitor" => let a ← parseV; let b ← parseV; pure (.bitOr a b)
   | "push" => let i ← num; let v ← parseV; pure (.push v i)
@@ -291,6 +295,8 @@ partial def evalV (x : Ctx) : V → R Bits
     | _ => applyUn x u bs
   | .and a b => do let l ← evalS x a; let r ← evalS x b; pure (Seq.bitAnd l r)
   | .or a b => do let l ← evalS x a; let r ← evalS x b; pure (Seq.bitOr l r)
+  | .andSV a b => do let r ← evalV x b; let l ← evalS x a; pure (Seq.bitAnd l r)
+  | .orSV a b => do let r ← evalV x b; let l ← evalS x a; pure (Seq.bitOr l r)
   | .bitAnd a b => do let l ← evalV x a; let r ← evalV x b; pure (Seq.bitAnd l r)
   | .bitOr a b => do let l ← evalV x a; let r ← evalV x b; pure (Seq.bitOr l r)
   | .push v i => do let bs ← evalV x v; pure (Seq.push x.c bs (item x.c i))
@@ -568,6 +574,14 @@ def kmerQuery (x : Ctx) : Q String := do
       let mx := match ks.max? with | some m => toString m | none => "none"
       let sorted := (ks.toArray.qsort (· < ·)).toList
       pure s!"{mn} {mx} {natsStr sorted}"
+  else if op = "cmpint" then do
+    -- k-mers decoded from two integers (`From<usize>` for usize and u64 storage, `From<u64>`) order like the integers
+    let a ← qlift num; let b ← qlift num
+    if st ≠ .usize then throw .unsup
+    if k = 0 ∨ k > 64 then throw .unsup
+    if ¬ fits 64 then throw .unsup
+    let a := a % 2^64; let b := b % 2^64
+    pure s!"{boolStr (a == b)} {boolStr (a < b)} {boolStr (a == b)} {boolStr (a < b)} {boolStr (a < b)} true"
   else if op = "fromint64" then do
     let v ← qlift num
     if k = 0 ∨ k > 64 then throw .unsup
